@@ -171,6 +171,16 @@ def cancel_points(base_steps, sc, rng, limit):
     return out
 
 
+def rpcfail_points(base_steps):
+    """Scripts that fail each single validate / run / constants call of a recorded base run (C17's quantifier: "a failure
+    injected into each single validate/run/consts RPC")."""
+    out = []
+    for k, st in enumerate(base_steps):
+        if st.get("g") == "rpc":
+            out.append(base_steps[:k] + [dict(st, mode="fail")])
+    return out
+
+
 def stray_points(base_steps, sc, rng, limit):
     out = []
     nc, n = len(sc["pol"]), sc["n"]
@@ -369,6 +379,13 @@ def check_server(prop, tier, replay):
             jobs.append(mkjob(f"{prop}.{name}.t{bi}", sc, rng, steps=b["steps"], seed=bi, expect=expect))
             nscript += 1
         # systematic injection points along a base run
+        if prop == "C17" and sc["faults"]["rpcfail"] > 0:
+            base = base_run(wd, sc, rng, v.seed + si, f"basef{si}")
+            pts = rpcfail_points(base)
+            if q and len(pts) > 16:
+                pts = rng.sample(pts, 16)
+            for ci, steps in enumerate(pts):
+                jobs.append(mkjob(f"{prop}.{name}.f{ci}", sc, rng, steps=steps, seed=rng.randrange(1 << 30)))
         if prop == "C17" and sc["faults"]["cancel"] > 0 and len(sc["pol"]) == 1:
             base = base_run(wd, sc, rng, v.seed + si, f"base{si}")
             for ci, steps in enumerate(cancel_points(base, sc, rng, 40 if q else 0)):
